@@ -921,8 +921,10 @@ func stateEndTop(s *Scanner, c byte) state {
 
 	case !bytes.IsBlank(c):
 		if s.lengthComputing {
-			if s.stack.Len() > 0 {
-				// Looks like we have invalid schema, and we should keep scanning.
+			// The first character after the schema. EndTop is reported on the
+			// next character, whether or not the last value is still open in
+			// the stack, so that Length() always finds it one past this one.
+			if !s.hasTrailingCharacters {
 				s.hasTrailingCharacters = true
 				return scanContinue
 			}
